@@ -25,9 +25,9 @@ Images == << <<68, 240, 31, 255, 32, 250>>,
 Budgets == IF Tier = "quick" THEN {0, 1, 2, 9, 40} ELSE {0, 1, 2, 3, 9, 25, 40, 90}
 Cand(N) == {0, 1, 2, 7, N - 1, N, N + 5} \cap (0..200)
 IntSets(N) == IF Tier = "quick" THEN {{}, {0}, {7}, {0, 2}, {1, 7}, {N - 1} \cap (0..200), {N} \cap (0..200), {2, 7, N + 5}}
-              ELSE SUBSET Cand(N)
+              ELSE {S \in SUBSET Cand(N) : Cardinality(S) <= 2} \cup {Cand(N)}
 ResetSets(N) == IF Tier = "quick" THEN {{}, {0}, {7}, {2, 7}, {N - 1} \cap (0..200), {N}}
-                ELSE SUBSET ({0, 2, 7, N - 1, N} \cap (0..200))
+                ELSE {S \in SUBSET ({0, 2, 7, N - 1, N} \cap (0..200)) : Cardinality(S) <= 2}
 Inputs == {<<0, 0, 0, 0>>, <<200, 1, 2, 255>>}
 \* board configurations given on the command line (voltages in millivolts)
 Boards == { [di1 |-> 0, temp |-> 0, j1 |-> FALSE, j2 |-> FALSE, ai1 |-> 0, ai2 |-> 0, uio1 |-> FALSE, uio2 |-> FALSE, uio3 |-> FALSE],
